@@ -15,7 +15,9 @@ EXPLANATION = (
     "(pop_front): write-back is left to right; (R4) activation pairing in the VM and in the call "
     "template (arguments collected before PushStack, function value stashed before PopStack, every "
     "call template ends with the callee context popped); (R5) fresh locals for ordinary procedures, "
-    "one persistent block per STATIC procedure.")
+    "one persistent block per STATIC procedure; (R6) every VM container is used at the end its role "
+    "prescribes; (R7, R8) SHARED variables are found from every subprogram (gate and fallback, shared "
+    "with C13); (R9) the global by-ref queue is not re-entered while values are still queued.")
 NOT_DECIDED = ["visibility of values over arbitrary call histories (run-time behaviour)"]
 
 SHIFTING = ("remove", "swap_remove", "insert", "drain", "retain", "truncate", "split_off", "dedup",
@@ -274,6 +276,33 @@ def r5_fresh_and_static(ctx, rule="C03.R5"):
     ctx.require(rule, 3)
 
 
+def r9_queue_not_reentered(ctx, rule="C03.R9"):
+    """The by-ref queue is one global FIFO.  Between the Dequeue of one argument and the Dequeue of
+    the next, the write-back must not emit another call template (which enqueues and dequeues on
+    the same queue): otherwise the nested call consumes the values still queued for the outer one."""
+    prog = ctx.prog
+    un = ctx.anchor_method("InstructionGenerator", "generate_un_stash_by_ref_args")
+    stash = ctx.anchor_method("InstructionGenerator", "generate_stash_by_ref_args")
+    evs = emit.events(prog, un)
+    deq = [e for e in evs.values() if e.kind == "push" and e.instr == "DequeueFromReturnStack"]
+    if not deq:
+        raise CheckError("generate_un_stash_by_ref_args emits no DequeueFromReturnStack")
+    # emitters called inside the same loop iteration as the dequeue
+    in_loop = [e for e in evs.values() if e.callee is not None and e.kind in ("gen", "EXPR")
+               and e.bb in un.body.reachable(deq[0].bb)]
+    reentrant = []
+    for e in in_loop:
+        reach = prog.reachable_from([e.callee])
+        if stash.id in reach:
+            reentrant.append(e.callee.name)
+    ctx.decide(not reentrant, rule, rule + ":write-back-does-not-reenter-the-queue", un.loc,
+               "no call template can be emitted while values are queued",
+               "after DequeueFromReturnStack the write-back emits %s, which can emit a nested call template "
+               "(index expressions containing function calls are evaluated again): the nested call's "
+               "dequeue takes the value queued for the next outer argument" % sorted(set(reentrant)))
+    ctx.require(rule, 1)
+
+
 def run(ctx):
     common.install(ctx)
     r1_index_stable(ctx)
@@ -282,3 +311,7 @@ def run(ctx):
     r4_activation_pairing(ctx)
     r5_fresh_and_static(ctx)
     common.r_stack_discipline(ctx, "C03.R6")
+    from . import c13
+    c13.r2_shared_gate(ctx, "C03.R7")
+    c13.r6_fallback_keyed_on_same_lookup(ctx, "C03.R8")
+    r9_queue_not_reentered(ctx)
